@@ -1435,8 +1435,16 @@ def run(ctx):
 META = {
     'technique': 'Rocq proofs over exact rationals / an abstract field (route agreement by induction over the axes, quotient and Leibniz '
                  'identities by field, circle identities by ring) + correspondence of bspline.py/geometry.py with the exact model within derived rounding bounds',
-    'level_text': 'see coq/C07/Props.v; tie: every evaluation route, boundary extraction and coefficient operation of generated spline/NURBS '
-                  'functions against the exact Qc model (coq/C07/Model.v) and against an independent Fraction oracle',
+    'level_text': 'Theorems (Coq, 54, unbounded over axes, degrees, open knot vectors, coefficients, trailing shapes): single-point, grid and scattered-point '
+                  'evaluation agree for B-spline and NURBS functions (routes_agree_*; the old XY[1-d] indexing is refuted for sdim 1 and 3), Jacobian slot order and '
+                  'Hessian (triu) order, values/Jacobians/Hessians are sums over the Cox-de Boor reference and its derivative recursion (C02), NURBS = quotient with the '
+                  'first- and second-order quotient rules, translate/scale/apply_matrix/getitem (full Python index semantics)/as_nurbs/outer_sum/outer_product/'
+                  'tensor_product/cylinderize(+defaults)/copy/support restriction specs, boundary extraction is the trace (no hypothesis about the basis left open) and keeps '
+                  'the support of the remaining axes, ComposedFunction chain rule, circular arcs / annulus / disk boundary lie on exact circles over any field with c^2+s^2=1. '
+                  'Tie on every run: every evaluation route, boundary extraction and coefficient operation of generated spline/NURBS functions (sdim 1-3, scalar/vector/matrix '
+                  'coefficients, repeated knots, all bdspecs, partially restricted supports, point arrays in C/F/transposed/strided layouts, default arguments of every '
+                  'constructor) against the exact Qc model (coq/C07/Model.v) within per-point derived bounds and against an independent Fraction oracle; snapshots around '
+                  'every call check that no operation alters its operand.',
     'level_note': 'Trusted: Coq kernel + vm_compute; transcription (coq/C07/Model.v, coq/lib/Bsp.v) validated on every run; apply_tprod/einsum by contract; no hypothesis about the B-spline basis is left open (C02 + coq/C07/Ends.v); '
                   'float rounding bounded by the tie only (partial).',
 }
